@@ -1246,6 +1246,38 @@ def _conv_arr(X, W, Bv, attrs, k):
     return out
 
 
+@op("ConvInteger")
+def _conv_integer(ins, attrs, ctx):
+    """y = Conv(int32(x) - x_zero_point, int32(w) - w_zero_point): the padding of the convolution contributes nothing, i.e.
+    it stands for x_zero_point (onnx.reference and onnxruntime agree)"""
+    x, w = ins[0], ins[1]
+    xzp = ins[2] if len(ins) > 2 and ins[2] is not None else None
+    wzp = ins[3] if len(ins) > 3 and ins[3] is not None else None
+    for t, what in ((x, "x"), (w, "w")):
+        if t.dtype not in (DT.UINT8, DT.INT8):
+            raise Bottom(f"ConvInteger {what} type")
+    X = x.arr
+    if xzp is not None:
+        if xzp.dtype != x.dtype or xzp.arr.size != 1:
+            raise Bottom("ConvInteger x_zero_point")
+        z = xzp.arr.reshape(-1)[0]
+        X = ew(lambda u: e_sub(u, z, "i"), X)
+    W = w.arr
+    if wzp is not None:
+        if wzp.dtype != w.dtype:
+            raise Bottom("ConvInteger w_zero_point type")
+        if wzp.arr.size == 1:
+            zw = wzp.arr.reshape(-1)[0]
+            W = ew(lambda u: e_sub(u, zw, "i"), W)
+        elif wzp.arr.shape == (w.arr.shape[0],):
+            W = W.copy()
+            for idx in np.ndindex(*W.shape):
+                W[idx] = e_sub(W[idx], wzp.arr[idx[0]], "i")
+        else:
+            raise Bottom("ConvInteger w_zero_point shape")
+    return [SV(_conv_arr(X, W, None, attrs, "i"), DT.INT32)]
+
+
 @op("Conv")
 def _conv(ins, attrs, ctx):
     x, w = ins[0], ins[1]
